@@ -53,6 +53,16 @@ func (in *Interp) term(v Value) *smt.Term {
 	panic(fmt.Sprintf("term: not an integer: %T", v))
 }
 
+// int64Term is the term of an index value widened to 64 bits (indices are
+// of type int here, which is 64 bits wide).
+func (in *Interp) int64Term(v Value) *smt.Term {
+	t := in.term(v)
+	if t.Sort.W != 64 {
+		panic(unsupported("index of an opaque byte slice that is not 64 bits wide"))
+	}
+	return t
+}
+
 func (in *Interp) boolTerm(v Value) *smt.Term {
 	switch v := v.(type) {
 	case bool:
@@ -417,6 +427,9 @@ func (in *Interp) unop(instr *ssa.UnOp, x Value) Value {
 		if r, ok := x.(SymElemRef); ok {
 			return in.selectElem(r)
 		}
+		if r, ok := x.(OByteRef); ok {
+			return fromTerm(in.ctx.SeqNth(r.T, r.Idx))
+		}
 		checkPoison(x)
 		p, ok := x.(*Value)
 		if !ok {
@@ -719,7 +732,11 @@ func (in *Interp) strLen(x Value) Value {
 	case XStr:
 		return mkInt(uint64(len(s.B)), 64)
 	case OStr:
-		panic(unsupported("len of an opaque string (use an exploded string in the harness)"))
+		// sequence length through the solver's integer theory; lengths are
+		// far below 2^63, so the 64-bit image is exact and non-negative
+		t := in.ctx.SeqLen64(s.T)
+		in.addPC(in.ctx.Cmp(smt.OpSLe, in.ctx.BVConst(0, 64), t))
+		return SymInt{t}
 	}
 	checkPoison(x)
 	panic(fmt.Sprintf("strLen: %T", x))
